@@ -367,6 +367,13 @@ func (w *world17) step(op Op17, probe func(string)) (f *fail17, skipped bool) {
 			for i := range pal {
 				pal[i] = color.Gray{byte(i)}
 			}
+			if op.V&32 != 0 {
+				// an indexed image with a transparent colour (GIF, indexed PNG):
+				// the entry used for white is fully transparent, whatever colour
+				// it has underneath; transparent is white
+				pal[255] = color.NRGBA{byte(r.Intn(256)), byte(r.Intn(256)), byte(r.Intn(256)), 0}
+				probe("probe.paletted_image_with_transparent_entry")
+			}
 			g := image.NewPaletted(image.Rect(0, 0, op.W, op.H), pal)
 			for y := 0; y < op.H; y++ {
 				for x := 0; x < op.W; x++ {
